@@ -1115,6 +1115,7 @@ theorem step_ok {s : State} {outs : List Out} (h : Inv s) (a : Acc s outs) (op :
   | reapSelfExited pid => exact reap_ok h a pid
   | start => exact start_ok h a
   | stop => exact stop_ok h a
+  | lateRemove pid => exact ⟨h, by simpa [step] using a⟩
 
 theorem init_inv (b p0 : Nat) : Inv (init b p0) := by
   refine ⟨⟨by simp [init, Dict.keys], by simp [init, Dict.keys], by simp [init, Dict.keys]⟩, by simp [init],
@@ -1249,6 +1250,7 @@ theorem step_buffer (s : State) (op : Op) : (step s op).1.red.buffer = s.red.buf
     have := stop_buffer s.red
     generalize stop s.red = st at this ⊢
     exact this
+  | lateRemove pid => rfl
 
 theorem run_buffer (s : State) (ops : List Op) : (run s ops).1.red.buffer = s.red.buffer := by
   induction ops generalizing s with
